@@ -6,7 +6,8 @@
    (validated, like the models, by the correspondence runs). *)
 From SPV Require Export Base.Str.
 
-Inductive val := VS (s : string) | VL (l : list val) | VB (b : bool) | VN (n : nat) | VNone.
+Inductive val := VS (s : string) | VL (l : list val) | VB (b : bool) | VN (n : nat) | VNone
+| VT (l : list val).               (* tuple (third group) *)
 
 Inductive expr :=
 | EStr (s : string)
@@ -28,7 +29,24 @@ Inductive expr :=
 | EComp (body : expr) (x : string) (iter : expr) (cond : option expr)          (* [body for x in iter if cond] *)
 | EComp2 (body : expr) (x y : string) (it1 it2 : expr)                         (* [body for x, y in zip(it1, it2)] *)
 | EDedupe (e : expr)                      (* list(dict.fromkeys(e)) *)
-| ESortLen (e : expr).                    (* sorted(e, key=len) *)
+| ESortLen (e : expr)                     (* sorted(e, key=len) *)
+(* second group (BooleanOptionalAction.__init__) *)
+| ENone
+| EIsNone (e : expr)                      (* e is None *)
+| ELstrip (e : expr) (c : string)         (* e.lstrip(c) with a one-character c *)
+| EEndswith (e : expr) (p : string)
+| ERepeat (c : string) (n : expr)         (* c * n with a one-character literal c *)
+| EAdd (a b : expr)                       (* a + b on numbers, strings, lists *)
+| ESub (a b : expr)                       (* a - b on numbers; a negative result is outside the fragment (an error) *)
+| EGt (a b : expr)                        (* a > b on numbers *)
+(* third group (FieldWrapper.duplicate_if_needed) *)
+| EAnd (a b : expr)                       (* a and b: a when it is falsy, else b *)
+| EOr (a b : expr)                        (* a or b *)
+| EIsInst (e : expr) (classes : list string)   (* isinstance(e, (c1, ...)) for classes among list / tuple / str *)
+| EToList (e : expr)                      (* list(e) of a list or tuple *)
+| EIndex (e : expr) (n : nat)             (* e[n] with a literal n, on lists and tuples *)
+| EMul (a b : expr)                       (* sequence * number, number * number *)
+| ENestLevel (e : expr).                  (* utils.get_nesting_level(e) (its source is shape-checked by translate/Merge.py) *)
 
 Inductive stmt :=
 | SAssign (x : string) (e : expr)
@@ -36,7 +54,10 @@ Inductive stmt :=
 | SExtend (x : string) (e : expr)         (* x.extend(e) *)
 | SIf (c : expr) (th el : list stmt)
 | SFor (x : string) (iter : expr) (body : list stmt)
-| SReturn (e : expr).
+| SReturn (e : expr)
+| SUnpack3 (x ms y : string) (e : expr)   (* x, *ms, y = e *)
+| SAssert (e : expr)
+| SRaise (cls : string).                  (* raise cls(...): the message is not modelled *)
 Definition block := list stmt.
 
 Definition env := list (string * val).
@@ -55,6 +76,7 @@ Definition truthy (v : val) : bool :=
   | VB b => b
   | VN n => negb (Nat.eqb n 0)
   | VNone => false
+  | VT l => negb (Nat.eqb (List.length l) 0)
   end.
 
 Fixpoint val_eqb (a b : val) : bool :=
@@ -64,6 +86,10 @@ Fixpoint val_eqb (a b : val) : bool :=
   | VN x, VN y => Nat.eqb x y
   | VNone, VNone => true
   | VL xs, VL ys => (fix eq l1 l2 := match l1, l2 with
+                                     | [], [] => true
+                                     | x :: r1, y :: r2 => val_eqb x y && eq r1 r2
+                                     | _, _ => false end) xs ys
+  | VT xs, VT ys => (fix eq l1 l2 := match l1, l2 with
                                      | [], [] => true
                                      | x :: r1, y :: r2 => val_eqb x y && eq r1 r2
                                      | _, _ => false end) xs ys
@@ -78,6 +104,20 @@ Fixpoint strs_of (l : list val) : option (list string) :=
   | VS s :: r => option_map (cons s) (strs_of r)
   | _ :: _ => None
   end.
+
+Definition type_name (v : val) : string :=
+  match v with VS _ => "str" | VL _ => "list" | VB _ => "bool" | VN _ => "int" | VNone => "NoneType" | VT _ => "tuple" end.
+(* python `l * n` *)
+Fixpoint rep_list {A} (l : list A) (n : nat) : list A :=
+  match n with O => [] | S k => (l ++ rep_list l k)%list end.
+(* utils.get_nesting_level *)
+Fixpoint nest_level (v : val) : nat :=
+  match v with
+  | VL l | VT l => S (fold_right (fun x acc => Nat.max (nest_level x) acc) 0 l)
+  | _ => 0
+  end.
+
+Definition suffixb (p s : string) : bool := prefixb (srev p) (srev s).
 
 Definition rerr {A} : res A := Err (Raise "MiniPyTypeError").
 Definition wrapL (o : res (list val)) : res val := match o with Ok vs => Ok (VL vs) | Err z => Err z end.
@@ -139,6 +179,7 @@ Fixpoint eval (r : env) (e : expr) {struct e} : res val :=
   | ELen a => match eval r a with
               | Ok (VS s) => Ok (VN (String.length s))
               | Ok (VL l) => Ok (VN (List.length l))
+              | Ok (VT l) => Ok (VN (List.length l))
               | Ok _ => rerr | Err x => Err x end
   | EEq a b => match eval r a, eval r b with Ok x, Ok y => Ok (VB (val_eqb x y)) | Err x, _ => Err x | _, Err x => Err x end
   | EIn a b => match eval r a, eval r b with
@@ -167,6 +208,37 @@ Fixpoint eval (r : env) (e : expr) {struct e} : res val :=
   | ESortLen a => match eval r a with
                   | Ok (VL l) => match strs_of l with Some ss => Ok (VL (map VS (sort_by String.length ss))) | None => rerr end
                   | Ok _ => rerr | Err z => Err z end
+  | ENone => Ok VNone
+  | EIsNone a => match eval r a with Ok VNone => Ok (VB true) | Ok _ => Ok (VB false) | Err z => Err z end
+  | ELstrip a c => match eval r a with
+                   | Ok (VS s) => Ok (VS (lstrip_by (fun x => Ascii.eqb x (head_char c)) s))
+                   | Ok _ => rerr | Err z => Err z end
+  | EEndswith a p => match eval r a with Ok (VS s) => Ok (VB (suffixb p s)) | Ok _ => rerr | Err z => Err z end
+  | ERepeat c n => match eval r n with Ok (VN k) => Ok (VS (repeat_char (head_char c) k)) | Ok _ => rerr | Err z => Err z end
+  | EAdd a b => match eval r a, eval r b with
+                | Ok (VN x), Ok (VN y) => Ok (VN (x + y))
+                | Ok (VS x), Ok (VS y) => Ok (VS (x ++ y))
+                | Ok (VL x), Ok (VL y) => Ok (VL (x ++ y))
+                | Ok _, Ok _ => rerr | Err z, _ => Err z | _, Err z => Err z end
+  | ESub a b => match eval r a, eval r b with
+                | Ok (VN x), Ok (VN y) => if Nat.leb y x then Ok (VN (x - y)) else Err (Raise "MiniPyNegativeNumber")
+                | Ok _, Ok _ => rerr | Err z, _ => Err z | _, Err z => Err z end
+  | EGt a b => match eval r a, eval r b with
+               | Ok (VN x), Ok (VN y) => Ok (VB (Nat.ltb y x))
+               | Ok _, Ok _ => rerr | Err z, _ => Err z | _, Err z => Err z end
+  | EAnd a b => match eval r a with Ok v => if truthy v then eval r b else Ok v | Err z => Err z end
+  | EOr a b => match eval r a with Ok v => if truthy v then Ok v else eval r b | Err z => Err z end
+  | EIsInst a cls => match eval r a with Ok v => Ok (VB (str_in (type_name v) cls)) | Err z => Err z end
+  | EToList a => match eval r a with Ok (VL l) => Ok (VL l) | Ok (VT l) => Ok (VL l) | Ok _ => rerr | Err z => Err z end
+  | EIndex a n => match eval r a with
+                  | Ok (VL l) | Ok (VT l) => match nth_error l n with Some v => Ok v | None => Err (Raise "IndexError") end
+                  | Ok _ => rerr | Err z => Err z end
+  | EMul a b => match eval r a, eval r b with
+                | Ok (VN x), Ok (VN y) => Ok (VN (x * y))
+                | Ok (VL l), Ok (VN n) => Ok (VL (rep_list l n))
+                | Ok (VT l), Ok (VN n) => Ok (VT (rep_list l n))
+                | Ok _, Ok _ => rerr | Err z, _ => Err z | _, Err z => Err z end
+  | ENestLevel a => match eval r a with Ok v => Ok (VN (nest_level v)) | Err z => Err z end
   end.
 
 (* statements: the result is the new environment and, when a `return` was executed, the returned value *)
@@ -201,6 +273,19 @@ Fixpoint exec (r : env) (s : stmt) {struct s} : res (env * option val) :=
       | Err z => Err z
       end
   | SReturn e => match eval r e with Ok v => Ok (r, Some v) | Err z => Err z end
+  | SUnpack3 x ms y e =>
+      match eval r e with
+      | Ok (VL (v :: rest)) =>
+          match rev rest with
+          | w :: mid_rev => Ok (assign y w (assign ms (VL (rev mid_rev)) (assign x v r)), None)
+          | [] => Err (Raise "ValueError")
+          end
+      | Ok (VL []) => Err (Raise "ValueError")
+      | Ok _ => rerr
+      | Err z => Err z
+      end
+  | SAssert e => match eval r e with Ok v => if truthy v then Ok (r, None) else Err (Raise "AssertionError") | Err z => Err z end
+  | SRaise cls => Err (Raise cls)
   end.
 
 Fixpoint exec_block (r : env) (ss : list stmt) : res (env * option val) :=
